@@ -1044,6 +1044,7 @@ func (r *Resolver) executeSubscriptionUpdate(resolveCtx *Context, sub *subscript
 		return
 	}
 
+	verifYield("sub.update.beforeWriteLock", sub)
 	sub.writeMu.Lock()
 	if sub.removed.Load() {
 		sub.writeMu.Unlock()
@@ -1249,6 +1250,7 @@ func (r *Resolver) addSubscription(triggerID uint64, add *addSubscription) error
 		if err == nil {
 			err = add.resolve.Trigger.Source.Start(cloneCtx, add.headers, add.input, trig.updater)
 		}
+		verifYield("trigger.start.returned", trig.updater)
 		if err != nil {
 			if r.options.Debug {
 				fmt.Printf("resolver:trigger:failed:%d\n", triggerID)
@@ -1331,6 +1333,7 @@ func (r *Resolver) handleTriggerComplete(triggerID uint64) {
 
 	for _, s := range subs {
 		if !s.removed.Load() {
+			verifYield("sub.complete.beforeCall", s)
 			s.complete()
 		}
 	}
@@ -1347,6 +1350,7 @@ func (r *Resolver) handleTriggerError(triggerID uint64, data []byte) {
 
 	for _, s := range subs {
 		if !s.removed.Load() {
+			verifYield("sub.error.beforeCall", s)
 			s.error(data)
 		}
 	}
